@@ -29,6 +29,7 @@ class Contract:
     native: dict = field(default_factory=dict)       # hints for the native harness (class keys, stubs)
     pure: bool = False
     class_fields: dict = field(default_factory=dict)   # class name -> {attr: type}: field types (incl. ghost fields g_*) by class
+    opaque_new: list = field(default_factory=list)    # classes whose construction is treated as an opaque fresh value (helper objects no clause mentions)
     yield_to: str = ""                                # generator functions: ghost list (of record indices / values) that `yield` appends to
     backrefs: dict = field(default_factory=dict)      # "Class.attr" -> root-level path: object-typed field of LIST ELEMENTS that points back at a named object
     opaque: list = field(default_factory=list)        # macros kept as uninterpreted functions while verifying THIS function (hide definitions the proof does not need)
